@@ -187,7 +187,7 @@ def strategy_density(cfg, opts, pars, p4):
 def builder_and_strategy_cases(ctx, rnd, tier, cases):
     from tf_pwa.config_loader import ConfigLoader
     nev = 2
-    for tag, cfg, M0, mf in configs(rnd):
+    for tag, cfg, M0, mf, _tree in [c for c in configs(rnd) if c[4] is None]:
         config = ConfigLoader(cfg)
         amp = config.get_amplitude()
         pars = ampkit.random_params(amp, rnd)
@@ -239,7 +239,7 @@ def likelihood_cases(ctx, rnd, cases):
     """cached_int / cached_amp likelihood models vs the default one: same NLL and gradient (line shape fixed)"""
     import copy
     from tf_pwa.config_loader import ConfigLoader
-    for tag, cfg, M0, mf in configs(rnd)[:2]:
+    for tag, cfg, M0, mf, _tree in configs(rnd)[:2]:
         data_p4 = ampkit.gen_events(M0, mf, 12, rnd.randrange(10 ** 6))
         phsp_p4 = ampkit.gen_events(M0, mf, 30, rnd.randrange(10 ** 6))
         vals = {}
